@@ -56,6 +56,7 @@ type Engine struct {
 	ghostByValue  map[string]bool
 	named         map[string]string
 	regionAcc     map[string][]string
+	opaqueDefs    map[string]string // opaque spec function -> defining axiom
 	nonNilGlobals map[*ssa.Global]bool
 	nonNilComps   map[string]bool
 }
@@ -76,6 +77,7 @@ type sweepRule struct {
 type Lemma struct {
 	Name  string
 	Props []string
+	Reveal []string
 	Body  string // commands; must be unsat together with the prelude
 	File  string
 }
@@ -122,7 +124,7 @@ func (e *Engine) stringConst(x *Exec, s string) string {
 }
 
 func loadEngine(repo, verifDir string, patterns []string, overlay map[string][]byte) (*Engine, error) {
-	e := &Engine{repo: repo, verifDir: verifDir, fns: map[string]*ssa.Function{}, contracts: map[string]*Contract{}, specFns: map[string]*SpecFn{}, specConsts: map[string]string{}, ghosts: map[string]string{}, regions: map[string][]string{}, typeIDs: map[string]int{}, so: newSorts(), wsMemo: map[*ssa.Function]*WriteSet{}, wsBusy: map[*ssa.Function]bool{}, allPkgs: map[string]*types.Package{}, rowOps: map[string]bool{}, mapCards: map[string]string{}, strConsts: map[string]int{}, axioms: map[string][]Clause{}, onStore: map[string]string{}, storeFacts: map[string]predApp{}, ghostByValue: map[string]bool{}, named: map[string]string{}, regionAcc: map[string][]string{}}
+	e := &Engine{repo: repo, verifDir: verifDir, fns: map[string]*ssa.Function{}, contracts: map[string]*Contract{}, specFns: map[string]*SpecFn{}, specConsts: map[string]string{}, ghosts: map[string]string{}, regions: map[string][]string{}, typeIDs: map[string]int{}, so: newSorts(), wsMemo: map[*ssa.Function]*WriteSet{}, wsBusy: map[*ssa.Function]bool{}, allPkgs: map[string]*types.Package{}, rowOps: map[string]bool{}, mapCards: map[string]string{}, strConsts: map[string]int{}, axioms: map[string][]Clause{}, onStore: map[string]string{}, storeFacts: map[string]predApp{}, ghostByValue: map[string]bool{}, named: map[string]string{}, regionAcc: map[string][]string{}, opaqueDefs: map[string]string{}}
 	// scratch copy of go.mod/go.sum so that the repository is never written
 	tmp, err := os.MkdirTemp("", "govcmod")
 	if err != nil {
@@ -389,7 +391,7 @@ func (e *Engine) loadSpecSMT(path string) error {
 			e.specFns[head[0]] = sf
 		}
 	}
-	e.specText += "; ---- " + filepath.Base(path) + " ----\n" + fuelRewrite(string(b)) + "\n"
+	e.specText += "; ---- " + filepath.Base(path) + " ----\n" + fuelRewrite(string(b), e.opaqueDefs) + "\n"
 	return nil
 }
 
@@ -408,9 +410,16 @@ func (e *Engine) loadLemmas(path string) error {
 		if strings.HasPrefix(tl, ";@lemma") {
 			fs := strings.Fields(strings.TrimPrefix(tl, ";@lemma"))
 			cur = &Lemma{Name: fs[0], File: path}
-			for i, f := range fs {
-				if f == "props" {
-					cur.Props = fs[i+1:]
+			mode := ""
+			for _, f := range fs[1:] {
+				if f == "props" || f == "reveal" {
+					mode = f
+					continue
+				}
+				if mode == "props" {
+					cur.Props = append(cur.Props, f)
+				} else if mode == "reveal" {
+					cur.Reveal = append(cur.Reveal, f)
 				}
 			}
 			continue
@@ -594,6 +603,7 @@ type FuncResult struct {
 	Contract *Contract
 	Obls     []*Obligation
 	Cmds     []string
+	Extra    string // revealed definitions of opaque spec functions
 	CmdTag   []int
 	Anc      [][]bool // Anc[b][a]: block a can reach block b
 	Notes    []string
@@ -728,6 +738,17 @@ func (e *Engine) verifyFunc(fn *ssa.Function, ct *Contract, sweep bool, props []
 					bad = true
 					break
 				}
+				// "err == nil ==> ..." is trivially true at a return site inside "if err != nil { return ..., err }"
+				trivial := false
+				for i := range r.nonNil {
+					if i < len(r.vals) && (strings.HasPrefix(t, "(=> (= "+r.vals[i].t+" 0) ") || strings.HasPrefix(t, "(=> (and (= "+r.vals[i].t+" 0) ") || strings.HasPrefix(t, "(=> (and (and (= "+r.vals[i].t+" 0) ") || strings.HasPrefix(t, "(=> (and (and (and (= "+r.vals[i].t+" 0) ")) {
+						trivial = true
+					}
+				}
+				if trivial {
+					x.assume(r.cond, t)
+					continue
+				}
 				cases = append(cases, oblCase{Idx: len(x.cmds), Guard: r.cond, Goal: t, Block: r.block})
 			}
 			if bad {
@@ -739,6 +760,14 @@ func (e *Engine) verifyFunc(fn *ssa.Function, ct *Contract, sweep bool, props []
 		if !sweep {
 			x.frameCases(ct, posts, st0)
 		}
+	}
+	for _, r := range ct.Reveal {
+		ax, ok := e.opaqueDefs[r]
+		if !ok {
+			e.specErrs = append(e.specErrs, fmt.Sprintf("%s:%d: reveal of unknown opaque function %s", ct.File, ct.Line, r))
+			continue
+		}
+		res.Extra += ax
 	}
 	res.Obls = x.obls
 	res.Cmds = x.cmds
